@@ -20,10 +20,20 @@ type vCtx struct {
 }
 
 // tiny primes for the engine, realistic ones natively (same shape: 3 Q primes, 1 P prime, t = 97 / 65537)
-func VerifSetup_Ctx(algebraic bool) *vCtx {
+func VerifSetup_Ctx(algebraic bool) *vCtx { return VerifSetup_CtxTier(algebraic, 0) }
+
+// VerifSetup_CtxTier: the thorough tier runs the same harnesses on a longer chain (5 Q primes) with two auxiliary
+// primes (the several-P gadget product path of the relinearisation).
+func VerifSetup_CtxTier(algebraic bool, tier int) *vCtx {
 	lit := ParametersLiteral{LogN: 4, LogQ: []int{45, 35, 35}, LogP: []int{40}, PlaintextModulus: 65537}
 	if algebraic {
 		lit = ParametersLiteral{LogN: 4, Q: []uint64{193, 257, 12289}, P: []uint64{769}, PlaintextModulus: 97}
+	}
+	if tier > 0 {
+		lit = ParametersLiteral{LogN: 4, LogQ: []int{45, 35, 35, 35, 35}, LogP: []int{40, 40}, PlaintextModulus: 65537}
+		if algebraic {
+			lit = ParametersLiteral{LogN: 4, Q: []uint64{193, 257, 12289, 1153, 3137}, P: []uint64{769, 7681}, PlaintextModulus: 97}
+		}
 	}
 	params, err := NewParametersFromLiteral(lit)
 	if err != nil {
@@ -118,7 +128,7 @@ func vItoa(n int) string {
 
 func vSetup() (*vCtx, *Evaluator) {
 	vConfig("algebraic-samplers", "1")
-	c := VerifSetup_Ctx(vIsAlgebraic())
+	c := VerifSetup_CtxTier(vIsAlgebraic(), vTier())
 	c.Kgen.GenSecretKey(c.Sk)
 	rlk := c.Kgen.GenRelinearizationKeyNew(c.Sk)
 	eval := c.Eval.WithKey(rlwe.NewMemEvaluationKeySet(rlk))
